@@ -230,6 +230,10 @@ func filterByToken(evs []build.Event, tok string) []build.Event {
 
 func run(c *core.Child) {
 	defaultResolverCases(c)
+	recursiveFamily(c)
+	if c.Batch == 0 {
+		subscribeRoute(c)
+	}
 	nSchemas := c.Scale(5, 24)
 	nDocs := c.Scale(40, 120)
 	for si := 0; si < nSchemas; si++ {
